@@ -151,7 +151,7 @@ func entrySavepoint(fn *ssa.Function, v ssa.Value) bool {
 		return false
 	}
 	fa, ok := ld.X.(*ssa.FieldAddr)
-	if !ok || fieldName(fa.X.Type(), fa.Field) != "pt" || fa.X != ssa.Value(fn.Params[0]) {
+	if !ok || fieldName(fa.X.Type(), fa.Field) != fPT || fa.X != ssa.Value(fn.Params[0]) {
 		return false
 	}
 	for _, ins := range fn.Blocks[0].Instrs {
@@ -870,8 +870,8 @@ func onlyStoreInto(al *ssa.Alloc) ssa.Value {
 // not to hold (false).
 func atEndOfInput(sm *Summary, fn *ssa.Function) (bool, bool) {
 	p := paramSym(fn.Params[0])
-	rn := loadField(p, "pt", "rn")
-	w := loadField(p, "pt", "w")
+	rn := loadField(p, fPT, fRN)
+	w := loadField(p, fPT, fW)
 	isErr, k1 := evalEq(sm.St, rn, &Sym{K: sConst, C: constantInt(0xFFFD)})
 	isZero, k2 := evalEq(sm.St, w, &Sym{K: sConst, C: constantInt(0)})
 	switch {
@@ -1021,11 +1021,11 @@ func isCurrentRune(v ssa.Value, p *ssa.Parameter) bool {
 		return false
 	}
 	fa, ok := ld.X.(*ssa.FieldAddr)
-	if !ok || fieldName(fa.X.Type(), fa.Field) != "rn" {
+	if !ok || fieldName(fa.X.Type(), fa.Field) != fRN {
 		return false
 	}
 	fa2, ok := fa.X.(*ssa.FieldAddr)
-	return ok && fieldName(fa2.X.Type(), fa2.Field) == "pt" && fa2.X == ssa.Value(p)
+	return ok && fieldName(fa2.X.Type(), fa2.Field) == fPT && fa2.X == ssa.Value(p)
 }
 
 func (e *pegEngine) checkCharClass(r *Run, rule string, report func(string, *ssa.Function, []string, int)) {
@@ -1266,7 +1266,7 @@ func (e *pegEngine) checkPositionPrimitives(r *Run, rule string, report func(str
 			stored := false
 			for _, ev := range sm.Events() {
 				if ev.Store {
-					if ev.Args[0].K == sFieldAddr && ev.Args[0].Str == "pt" && ev.Args[0].A != nil && ev.Args[0].A.Key() == p.Key() && ev.Args[1].Key() == pt.Key() {
+					if ev.Args[0].K == sFieldAddr && ev.Args[0].Str == fPT && ev.Args[0].A != nil && ev.Args[0].A.Key() == p.Key() && ev.Args[1].Key() == pt.Key() {
 						stored = true
 					} else {
 						probs = append(probs, "restore writes "+shortKey(ev.Args[0])+trailOf(sm))
@@ -1276,7 +1276,7 @@ func (e *pegEngine) checkPositionPrimitives(r *Run, rule string, report func(str
 			if !stored {
 				// allowed only when the offsets are known to be equal
 				a := &Sym{K: sField, A: &Sym{K: sField, A: pt, Str: "position"}, Str: "offset"}
-				b := loadField(p, "pt", "position", "offset")
+				b := loadField(p, fPT, "position", "offset")
 				if eq, known := evalEq(sm.St, a, b); !(known && eq) {
 					probs = append(probs, "restore leaves the position as it is although it is not known to equal the savepoint's"+trailOf(sm))
 				}
@@ -1301,8 +1301,8 @@ func (e *pegEngine) checkPositionPrimitives(r *Run, rule string, report func(str
 			if namedIs(fn.Params[1].Type(), grammarPath, "position") {
 				lo = (&Sym{K: sField, A: st, Str: "offset"}).Key() // handed the position itself
 			}
-			hi := loadField(p, "pt", "position", "offset").Key()
-			if !(res.K == sSlice && res.A != nil && res.A.Key() == loadField(p, "data").Key() && res.Str == lo+":"+hi) {
+			hi := loadField(p, fPT, "position", "offset").Key()
+			if !(res.K == sSlice && res.A != nil && res.A.Key() == loadField(p, fDATA).Key() && res.Str == lo+":"+hi) {
 				probs = append(probs, "sliceFrom must return data[start.offset : current offset]; got "+shortKey(res)+trailOf(sm))
 			}
 		}
@@ -1332,9 +1332,9 @@ func (e *pegEngine) checkPositionPrimitives(r *Run, rule string, report func(str
 						if offStore == nil {
 							offStore = ev
 						}
-					case "rn":
+					case fRN:
 						rnStore = ev
-					case "w":
+					case fW:
 						wStore = ev
 					}
 				}
@@ -1342,8 +1342,8 @@ func (e *pegEngine) checkPositionPrimitives(r *Run, rule string, report func(str
 					dec = ev
 				}
 			}
-			off := loadField(p, "pt", "position", "offset")
-			w := loadField(p, "pt", "w")
+			off := loadField(p, fPT, "position", "offset")
+			w := loadField(p, fPT, fW)
 			wantOff := (&Sym{K: sBin, Op: token.ADD, A: off, B: w}).Key()
 			if offStore == nil || offStore.Args[1].Key() != wantOff {
 				got := "nothing"
@@ -1356,7 +1356,7 @@ func (e *pegEngine) checkPositionPrimitives(r *Run, rule string, report func(str
 				probs = append(probs, "read does not decode the next rune with utf8.DecodeRune"+trailOf(sm))
 				continue
 			}
-			if a := dec.Args[0]; !(a.K == sSlice && a.A != nil && a.A.Key() == loadField(p, "data").Key() && strings.HasSuffix(a.Str, ":") && strings.Contains(a.Str, "offset")) {
+			if a := dec.Args[0]; !(a.K == sSlice && a.A != nil && a.A.Key() == loadField(p, fDATA).Key() && strings.HasSuffix(a.Str, ":") && strings.Contains(a.Str, "offset")) {
 				probs = append(probs, "the next rune is not decoded from data[offset:]: "+shortKey(a)+trailOf(sm))
 			}
 			if rnStore == nil || rnStore.Args[1].Key() != (&Sym{K: sRes, A: dec.Res, Idx: 0}).Key() {
@@ -1580,7 +1580,7 @@ func (e *pegEngine) literalComparisonOnPaths(fn *ssa.Function) (cmpOK, folds boo
 		return c.Pkg == e.prog.GrammarSSA && !e.primitive(c) && !e.combinatorOf(c) && c != fn
 	}
 	p := paramSym(fn.Params[0])
-	rn := loadField(p, "pt", "rn").Key()
+	rn := loadField(p, fPT, fRN).Key()
 	ic := loadField(paramSym(fn.Params[1]), "ignoreCase")
 	plainSeen, lowerSeen, bad := false, false, false
 	ps.OnInstr = func(f *ssa.Function, st *pstate, ins ssa.Instruction) {
